@@ -117,6 +117,70 @@ EXPECTED_ATOMS = [
     'i:e_ident() { i }',
 ]
 
+GLOBAL_PATTERNS = [r'\bstatic\s+(mut\s+)?\w+\s*:', r'lazy_static!', r'thread_local!', r'\bOnce(Lock|Cell)\b', r'\bLazy(Lock|Cell)?\s*<',
+                   r'\bAtomic[A-Z]\w*', r'\b(Mutex|RwLock)\s*<', r'static\s+ref\b', r'\bunsafe\b']
+AMBIENT_PATTERNS = [r'SystemTime', r'Instant::', r'\brand::', r'thread_rng', r'env::vars?\b', r'env::args', r'process::id', r'env::current_dir',
+                    r'RandomState', r'getrandom', r'DefaultHasher', r'thread::spawn', r'available_parallelism']
+ITER_METHODS = r'\.(iter|keys|values|into_iter|drain|iter_mut|values_mut|retain|into_keys|into_values)\('
+
+def rust_sources():
+    out = []
+    for root, _, files in os.walk(os.path.join(REPO, 'src')):
+        for f in sorted(files):
+            if f.endswith('.rs'):
+                out.append(os.path.join(root, f))
+    bp = os.path.join(REPO, 'build.rs')
+    return sorted(out) + ([bp] if os.path.exists(bp) else [])
+
+def strip_rust(text):
+    """drop the unit-test module and comments (string contents are kept)"""
+    k = text.find('#[cfg(test)]')
+    if k >= 0:
+        text = text[:k]
+    text = re.sub(r'/\*.*?\*/', '', text, flags=re.S)
+    return '\n'.join(re.sub(r'//.*$', '', l) for l in text.splitlines())
+
+def scan_globals():
+    """inventory for C17: process-wide state, ambient inputs, iteration over unordered containers"""
+    glob, amb, iters = [], [], []
+    for path in rust_sources():
+        rel = os.path.relpath(path, REPO)
+        text = strip_rust(open(path).read())
+        names = set()
+        for m in re.finditer(r'(\w+)\s*:\s*[^,;\n(){}]*\bHash(Map|Set)\s*<', text): names.add(m.group(1))
+        for m in re.finditer(r'let\s+(?:mut\s+)?(\w+)[^=;\n]*=\s*[^;\n]*(HashMap|HashSet|hashmap!|hashset!)', text): names.add(m.group(1))
+        for l in text.splitlines():
+            t = ' '.join(l.split())
+            if not t: continue
+            if any(re.search(p, t) for p in GLOBAL_PATTERNS): glob.append((rel, t))
+            if any(re.search(p, t) for p in AMBIENT_PATTERNS): amb.append((rel, t))
+            for n in names:
+                if re.search(r'\b%s\b[^;]*%s' % (re.escape(n), ITER_METHODS), t) or re.search(r'\bfor\b.*\bin\b[^{]*\b%s\b' % re.escape(n), t):
+                    iters.append((rel, t)); break
+    return glob, amb, iters
+
+def lean_str(s):
+    return '"' + s.replace('\\', '\\\\').replace('"', '\\"') + '"'
+
+def write_globals():
+    import hashlib
+    glob, amb, iters = scan_globals()
+    def dig(l): return int(hashlib.sha256(repr(l).encode()).hexdigest()[:15], 16)
+    out = ['/- GENERATED by tools/gen.py from /repo/src (static scan, unit-test modules and comments removed). DO NOT EDIT. -/',
+           'namespace Avra.Gen', '',
+           '/-- process-wide state: `static`, lazy_static!, thread_local!, Once*/Lazy*, atomics, locks, unsafe -/',
+           'def globalState : List (String × String) := [' + ', '.join('(%s, %s)' % (lean_str(a), lean_str(b)) for a, b in glob) + ']',
+           f'def globalStateDigest : Nat := {dig(glob)}', '',
+           '/-- ambient inputs: time, randomness, environment, hashing state, threads -/',
+           'def ambientInputs : List (String × String) := [' + ', '.join('(%s, %s)' % (lean_str(a), lean_str(b)) for a, b in amb) + ']',
+           f'def ambientInputsDigest : Nat := {dig(amb)}', '',
+           '/-- iteration over HashMap / HashSet values (the only unordered containers of std) -/',
+           'def unorderedIterations : List (String × String) := [' + ', '.join('(%s, %s)' % (lean_str(a), lean_str(b)) for a, b in iters) + ']',
+           f'def unorderedIterationsDigest : Nat := {dig(iters)}', '',
+           'end Avra.Gen']
+    write_if_changed(os.path.join(GEN, 'Globals.lean'), '\n'.join(out) + '\n')
+    return glob, amb, iters
+
 def write_if_changed(path, text):
     old = open(path).read() if os.path.exists(path) else None
     if old != text:
@@ -264,6 +328,7 @@ def main():
     out.append('')
     out.append('end Avra.Gen')
     write_if_changed(os.path.join(GEN, 'Grammar.lean'), '\n'.join(out) + '\n')
+    write_globals()
     print('gen: ok')
 
 if __name__ == '__main__':
